@@ -100,14 +100,21 @@ type outlineLvlXML struct {
 
 // runXML represents a text run (<w:r>).
 type runXML struct {
-	XMLName          xml.Name              `xml:"r"`
-	Properties       runPropsXML           `xml:"rPr"`
-	Text             []textXML             `xml:"t"`
-	Tabs             []tabXML              `xml:"tab"`
-	Breaks           []breakXML            `xml:"br"`
-	Drawing          []drawingXML          `xml:"drawing"`
-	Symbols          []symXML              `xml:"sym"`
-	AlternateContent []alternateContentXML `xml:"AlternateContent"`
+	XMLName    xml.Name      `xml:"r"`
+	Properties runPropsXML   `xml:"rPr"`
+	Drawing    []drawingXML  `xml:"drawing"`
+	Content    []runChildXML `xml:",any"` // w:t, w:tab, w:br, w:sym, mc:AlternateContent, ... in document order
+}
+
+// runChildXML represents one content child of a run. Keeping the children in
+// one slice preserves their document order (a run may interleave text, tabs,
+// breaks and symbols freely).
+type runChildXML struct {
+	XMLName  xml.Name
+	Type     string      `xml:"type,attr"` // w:br: page, column, textWrapping
+	Char     string      `xml:"char,attr"` // w:sym: hex character code
+	Value    string      `xml:",chardata"` // w:t: text
+	Fallback fallbackXML `xml:"Fallback"`  // mc:AlternateContent: fallback text
 }
 
 // symXML represents a symbol character (<w:sym>).
